@@ -38,7 +38,7 @@ def g_client_call(rng, custom=False):
         return {"k": "bind", "dn": C.tx(rng.choice(["", "cn=a"])), "cred": cred, "controls": small_controls(rng)}
     if r < 0.6:
         return {"k": "search", "base": C.tx(rng.choice(["", "dc=x"])), "scope": rng.choice([0, 1, 2]), "deref": rng.choice([0, 3]),
-                "size": rng.choice([0, 10]), "time": 0, "typesOnly": rng.random() < 0.3,
+                "size": rng.choice([0, 10, 1, 2, 3]), "time": rng.choice([0, 0, 1]), "typesOnly": rng.random() < 0.3,
                 "filter": None if rng.random() < 0.5 else gen.g_filter(rng, 2, allow_custom=custom), "attrs": [C.tx("cn")] if rng.random() < 0.5 else [],
                 "controls": small_controls(rng) if not custom else (gen.g_controls(rng, allow_custom=True) if rng.random() < 0.4 else [])}
     if r < 0.9:
@@ -762,6 +762,12 @@ def scripted_histories():
         hist(*(steps_ + [("c", rx(done1)), ("c", ext_c)]))
         whole = b"".join(stream_)
         hist(("c", srch_c), ("c", ext_c), ("c", rx(whole[: len(stream_[0]) + cut])), ("c", rx(whole[len(stream_[0]) + cut:])), ("c", ext_c))
+    # a search with a small positive size / time limit stays in progress across ANY number of entries and references until its done message
+    for lim in (1, 2, 5):
+        srch_lim = dict(srch_c, size=lim, time=lim)
+        many = [("c", rx(entry1)), ("c", rx(ref1))] * (lim + 2) + [("c", rx(entry1 + entry1 + ref1)), ("c", rx(done1)), ("c", rx(entry1))]
+        hist(*([("c", srch_lim)] + many))
+        hist(*([("c", srch_lim), ("c", ext_c), ("c", rx(ref1 + entry1 + entry1))] + many[:4] + [("c", rx(ext2)), ("c", rx(done1))]))
     # a closing message (unbind / notice of disconnection) that is NOT the last message of its delivery still closes the session
     unbind0 = pk({"id": 0, "op": {"k": "unbind"}, "controls": []})
     unbind3 = pk({"id": 3, "op": {"k": "unbind"}, "controls": []})
